@@ -77,6 +77,9 @@ inline std::string run_program(std::istringstream& is, std::vector<Manifold>& st
       Manifold a = st.back();
       st.pop_back();
       st.push_back(Manifold::Compose({a, b}));
+    } else if (tok == "refine") {
+      int n = (int)num();
+      st.back() = st.back().Refine(n);
     } else if (tok == "tr") {
       double x = num(), y = num(), z = num();
       st.back() = st.back().Translate(vec3(x, y, z));
